@@ -78,6 +78,7 @@ struct GenOpts {
 	bool need_track_output = false;   // at least one board with the DCC-main class bit
 	bool need_segments = false;
 	bool simple_ids = true;
+	int interface_chance = 100;       // /256: probability of the interface class bit per board
 	bool wide_dcc = false;            // DCC address high bytes over 0..255 (C14 only: other properties rely on 14-bit addresses)
 };
 
